@@ -40,9 +40,8 @@ def feasible_values(eng, e, limit=8):
     if key in _enum_cache:
         return _enum_cache[key]
     s = eng.solver
+    eng._sync(list(e.guard))
     s.push()
-    for c in e.guard:
-        s.add(c)
     if e.kind == 'C' and e.succ is not None and not isinstance(e.succ, int):
         s.add(ex.as_bool(e.succ))
     vals = []
